@@ -21,6 +21,7 @@ pub enum Op {
     AOnIf1,
     GoodbyeAllI,
     GoodbyeA,
+    GoodbyeAInForeign,
     GoodbyeSrvI,
     GoodbyePtrI,
     PtrOnlyI,
@@ -29,7 +30,7 @@ pub enum Op {
     Idle1100,
     Idle5s,
 }
-pub const OPS: [Op; 18] = [
+pub const OPS: [Op; 19] = [
     Op::AnnI2,
     Op::AnnI10,
     Op::AnnI120,
@@ -41,6 +42,7 @@ pub const OPS: [Op; 18] = [
     Op::AOnIf1,
     Op::GoodbyeAllI,
     Op::GoodbyeA,
+    Op::GoodbyeAInForeign,
     Op::GoodbyeSrvI,
     Op::GoodbyePtrI,
     Op::PtrOnlyI,
@@ -81,16 +83,20 @@ pub struct Scn {
     pub prop: Prop,
     pub horizon_ms: u64,
     pub ops: Vec<Op>,
+    /// first label of the host name both instances live on ("h", or one with ASCII and non-ASCII capitals)
+    pub host: &'static str,
 }
+pub const HOST_PLAIN: &str = "h";
+pub const HOST_CAPITALS: &str = "Host-\u{c9}cole";
 
 fn ty() -> Name {
     n("_t._tcp.local")
 }
-fn inst_i() -> Inst {
-    Inst::simple("inst1", "h", [10, 0, 0, 9])
+fn inst_i(h: &str) -> Inst {
+    Inst::simple("inst1", h, [10, 0, 0, 9])
 }
-fn inst_j() -> Inst {
-    let mut j = Inst::simple("inst2", "h", [10, 0, 0, 9]);
+fn inst_j(h: &str) -> Inst {
+    let mut j = Inst::simple("inst2", h, [10, 0, 0, 9]);
     j.port = 81;
     j.txt = txt_rdata(&[(b"j", None)]);
     j
@@ -367,10 +373,14 @@ impl Store {
 impl Scenario for Scn {
     type Run = Run;
     fn name(&self) -> String {
-        format!("browse-histories-{:?}", self.prop)
+        if self.host == HOST_PLAIN {
+            format!("browse-histories-{:?}", self.prop)
+        } else {
+            format!("browse-histories-{:?}-host-with-capitals", self.prop)
+        }
     }
     fn rule(&self) -> String {
-        format!("all sequences over {} events: announcements of two instances sharing a host (TTL 2/10/120), updates with new port / TXT / address (cache-flush), additional address, address learned on a second interface, goodbyes for everything / address / SRV / PTR, PTR only, verify(2.7 s), idle 0.4 / 1.1 / 5 s; oracle after every step against the reference record store", self.ops.len())
+        format!("all sequences over {} events: announcements of two instances sharing a host (TTL 2/10/120), updates with new port / TXT / address (cache-flush), additional address, address learned on a second interface, goodbyes for everything / address / address inside another type's goodbye / SRV / PTR, PTR only, verify(2.7 s), idle 0.4 / 1.1 / 5 s; oracle after every step against the reference record store", self.ops.len())
     }
     fn setup(&self) -> Run {
         let mut w = World::one(lay_two());
@@ -381,8 +391,8 @@ impl Scenario for Scn {
         w.poke(0);
         w.advance(20);
         let mut insts = BTreeMap::new();
-        insts.insert(inst_i().inst, InstState::default());
-        insts.insert(inst_j().inst, InstState::default());
+        insts.insert(inst_i(self.host).inst, InstState::default());
+        insts.insert(inst_j(self.host).inst, InstState::default());
         let seen = w.log.len();
         let last_obs = w.now;
         Run { w, ch, store: Store::default(), seen, last_obs, insts, step_from: 0, viols: vec![], counters: vec![] }
@@ -392,8 +402,8 @@ impl Scenario for Scn {
     }
     fn apply(&self, run: &mut Run, choice: usize) {
         let op = self.ops[choice];
-        let i = inst_i();
-        let j = inst_j();
+        let i = inst_i(self.host);
+        let j = inst_j(self.host);
         run.step_from = run.w.log.len();
         let mut delivered: Vec<Record> = vec![];
         let mut send = |s: &Scn, run: &mut Run, ifi: u32, recs: Vec<Record>| {
@@ -416,6 +426,8 @@ impl Scenario for Scn {
             Op::AOnIf1 => send(self, run, IF1, vec![a(&i.host, [10, 0, 1, 9], 120)]),
             Op::GoodbyeAllI => send(self, run, IF0, i.all(0)),
             Op::GoodbyeA => send(self, run, IF0, vec![a(&i.host, [10, 0, 0, 9], 0)]),
+            // the address withdrawn in the goodbye of a service of another (unbrowsed) type on the same host
+            Op::GoodbyeAInForeign => send(self, run, IF0, vec![ptr(&n("_z._udp.local"), &n("other._z._udp.local"), 0), a(&i.host, [10, 0, 0, 9], 0)]),
             Op::GoodbyeSrvI => send(self, run, IF0, vec![i.srv(0)]),
             Op::GoodbyePtrI => send(self, run, IF0, vec![i.ptr(0)]),
             Op::PtrOnlyI => send(self, run, IF0, vec![i.ptr(10)]),
